@@ -448,7 +448,7 @@ func finishRun(prop, tier string, seed int64, specs []*HarnessSpec, units []unit
 			}
 			done := map[string]int{}
 			for _, u := range units {
-				if done[u.spec.Fn] >= 3 {
+				if done[u.spec.Fn] >= 3 || u.spec.NoValidate {
 					continue // at most three units per harness
 				}
 				done[u.spec.Fn]++
